@@ -93,6 +93,7 @@ func runC11(c *Ctx) {
 	c.rule("D3", "Errorf: one %w, first, bound to the target kind after ConvertContextError (ErrUnknown when nil); WrapError: a cancellation/deadline cause replaces the target kind", 3)
 	c.rule("D4", "converters normalise context errors first; a pass-through case for ErrTimeout/ErrCancelled precedes every re-classifying case", 5)
 	c.rule("D6", "deserialisation re-joins every element after the kind into the reason: loop from index 1, step one, unconditional append of the (trimmed) element", 1)
+	c.rule("D10", "WrapIfNotCommonError / WrapIfNotCommonErrorf: the branch that gives the result the kind of the cause is reached only where the target was found not to be a cancellation or a deadline", 2)
 	c.rule("D9", "serialisation: where the parsed kind is replaced by the error Unwrap() returned, the description of that error is compared with the parsed text and the reason is rewritten accordingly (what the wrapped error already says is not said twice)", 1)
 	c.rule("D7", "writer and reader of the text form agree on the separators: kind/reason (constructors vs deserialiser) and joined errors (marshaller, errors.Join vs deserialiser); every line of a joined error is read, whatever its length", 3)
 	c.rule("D8", "the filesystem converter maps a backend condition to one kind whatever the path: no case that recognises a condition by the error's text (which embeds the caller's path) is evaluated before a case that recognises another condition structurally; the timeout case recognises Timeout() errors (os.IsTimeout); no converter that goes by the text is applied before the table", 3)
@@ -270,6 +271,7 @@ func runC11(c *Ctx) {
 	}
 
 	c.c11Wrapping()
+	c.c11ContextualTarget()
 	c.c11Converters()
 	c.c11Vacuous()
 	c.c11Reason()
@@ -1075,4 +1077,73 @@ func c11DependsOn(v ssa.Value, from []ssa.Value, seen map[ssa.Value]bool, depth 
 		}
 	}
 	return false
+}
+
+// c11ContextualTarget (D10): "recognised … as the kind it was given, and a cancellation or a deadline is never reclassified".
+// WrapIfNotCommonError(f) lets a cause that already is a common error keep its own kind (New(cause, msg)). When the kind
+// given is a cancellation or a deadline, that would turn a result the caller declared cancelled into 'conflict', 'not found'…
+// Both siblings must guard the branch the same way.
+func (c *Ctx) c11ContextualTarget() {
+	for _, name := range []string{"WrapIfNotCommonError", "WrapIfNotCommonErrorf"} {
+		f := c.fnOpt(cePkg, name)
+		if f == nil {
+			c.violate("D10", "commonerrors."+name, "", "constructor "+name+" not found")
+			continue
+		}
+		c.FuncsSeen[fname(f)] = true
+		key := fname(f)
+		if len(f.Params) < 2 {
+			c.violate("D10", key, c.pos(f.Pos()), "unexpected signature")
+			continue
+		}
+		target, cause := f.Params[0], f.Params[1]
+		// calls that build an error whose kind is the cause: New/Newf/Errorf(cause, …)
+		var takes []*ssa.Call
+		allInstrs(f, func(in ssa.Instruction) {
+			cl, ok := in.(*ssa.Call)
+			if !ok {
+				return
+			}
+			g := staticCallee(&cl.Call)
+			if g == nil || !inPkg(cePkg)(g) || len(cl.Call.Args) == 0 {
+				return
+			}
+			if (g.Name() == "New" || g.Name() == "Newf" || g.Name() == "Errorf") && resolveValue(cl.Call.Args[0]) == ssa.Value(cause) {
+				takes = append(takes, cl)
+			}
+		})
+		if len(takes) == 0 {
+			c.ok("D10", key, c.pos(f.Pos()), "no branch gives the result the kind of the cause")
+			continue
+		}
+		isGuard := func(v ssa.Value) bool {
+			cl, ok := v.(*ssa.Call)
+			if !ok || calleeFull(&cl.Call) != modPath+"/commonerrors.Any" || len(cl.Call.Args) != 2 {
+				return false
+			}
+			fromTarget := false
+			for _, l := range sources(cl.Call.Args[0], deriveOpts{through: func(n string) bool { return n == ceConvCtx }}) {
+				if l == ssa.Value(target) {
+					fromTarget = true
+				}
+			}
+			names := map[string]bool{}
+			for _, e := range variadicElems(cl.Call.Args[1]) {
+				for _, g := range []string{"ErrTimeout", "ErrCancelled"} {
+					if isGlobalLoad(e, g) {
+						names[g] = true
+					}
+				}
+			}
+			return fromTarget && names["ErrTimeout"] && names["ErrCancelled"]
+		}
+		good := true
+		for _, t := range takes {
+			if !onBoolSide(t, false, isGuard) {
+				good = false
+			}
+		}
+		c.check(good, "D10", key, c.ipos(takes[0]), "the cause's kind is taken only where the target is neither a cancellation nor a deadline",
+			name+" gives its result the kind of the cause without having found that the kind it was given is not a cancellation or a deadline: WrapIfNotCommonError(f)(ErrCancelled, New(ErrConflict, …), …) is recognised as 'conflict' and no longer as 'cancelled' — and its sibling (with / without format) answers differently on the same arguments")
+	}
 }
